@@ -81,6 +81,10 @@ func (c *escapeCallsiteInfoImpl) Resolve(callee *ssa.Function) dataflow.EscapeCa
 	}
 	nodes := calleeSummary.nodes
 	g := NewEmptyEscapeGraph(nodes)
+	// The callee's references to package-level variables and static functions point to global (leaked) objects in
+	// every context, exactly as in its own initial graph; without these edges an access to a global in the callee
+	// has no pointee in this context and is classified as local.
+	addGlobalObjectNodes(callee, g)
 	// Copy over nodes into g that are reachable from the arguments.
 	mappedNodes := map[*Node]bool{}
 	var mapNode func(*Node, *Node)
